@@ -8,17 +8,50 @@ Open Scope nat_scope.
 Lemma sapp_assoc' (a b c : string) : (a ++ b) ++ c = a ++ (b ++ c).
 Proof. induction a as [|x a IH]; cbn; [reflexivity|rewrite IH; reflexivity]. Qed.
 
-(* one character: whatever follows, reading its escape gives the character back (all 256 characters, both quotes) *)
-Lemma read_char_sq c tail : read_body sq (repr_char sq c ++ tail) = ocons c (read_body sq tail).
-Proof. destruct c as [[] [] [] [] [] [] [] []]; vm_compute; reflexivity. Qed.
-Lemma read_char_dq c tail : read_body dq (repr_char dq c ++ tail) = ocons c (read_body dq tail).
-Proof. destruct c as [[] [] [] [] [] [] [] []]; vm_compute; reflexivity. Qed.
+(* unfolding equations of the reader *)
+Lemma rb_plain q c r : Ascii.eqb c q = false -> Ascii.eqb c bs = false -> read_body q (String c r) = ocons c (read_body q r).
+Proof. intros H1 H2. cbn [read_body]. rewrite H1, H2. reflexivity. Qed.
+Lemma rb_esc_self q d r : Ascii.eqb bs q = false -> Ascii.eqb d bs || Ascii.eqb d sq || Ascii.eqb d dq = true ->
+  read_body q (String bs (String d r)) = ocons d (read_body q r).
+Proof. intros H1 H2. cbn [read_body]. rewrite H1, (Ascii.eqb_refl bs), H2. reflexivity. Qed.
+Lemma rb_esc_t q r : Ascii.eqb bs q = false -> read_body q (String bs (String "t" r)) = ocons tab (read_body q r).
+Proof. intros H1. cbn [read_body]. rewrite H1, (Ascii.eqb_refl bs). reflexivity. Qed.
+Lemma rb_esc_n q r : Ascii.eqb bs q = false -> read_body q (String bs (String "n" r)) = ocons nl (read_body q r).
+Proof. intros H1. cbn [read_body]. rewrite H1, (Ascii.eqb_refl bs). reflexivity. Qed.
+Lemma rb_esc_r q r : Ascii.eqb bs q = false -> read_body q (String bs (String "r" r)) = ocons cr (read_body q r).
+Proof. intros H1. cbn [read_body]. rewrite H1, (Ascii.eqb_refl bs). reflexivity. Qed.
+Lemma rb_esc_x q h1 h2 a b r : Ascii.eqb bs q = false -> unhex_digit h1 = Some a -> unhex_digit h2 = Some b ->
+  read_body q (String bs (String "x" (String h1 (String h2 r)))) = ocons (ascii_of_nat (16 * a + b)) (read_body q r).
+Proof. intros H1 Ha Hb. cbn [read_body]. rewrite H1, (Ascii.eqb_refl bs), Ha, Hb. reflexivity. Qed.
+
+(* \xNN round trip, all 256 characters (closed computations) *)
+Lemma hex_roundtrip c :
+  unhex_digit (hex_digit (nat_of_ascii c / 16)) = Some (nat_of_ascii c / 16) /\
+  unhex_digit (hex_digit (nat_of_ascii c mod 16)) = Some (nat_of_ascii c mod 16) /\
+  ascii_of_nat (16 * (nat_of_ascii c / 16) + nat_of_ascii c mod 16) = c.
+Proof. destruct c as [[] [] [] [] [] [] [] []]; vm_compute; repeat split; reflexivity. Qed.
+
+(* one character: whatever follows, reading its escape gives the character back *)
+Lemma read_char q c tail : q = sq \/ q = dq -> read_body q (repr_char q c ++ tail) = ocons c (read_body q tail).
+Proof.
+  intros Hq. assert (Bq : Ascii.eqb bs q = false) by (destruct Hq as [-> | ->]; reflexivity).
+  unfold repr_char. destruct (Ascii.eqb c q || Ascii.eqb c bs) eqn:E1.
+  - cbn [append]. apply rb_esc_self; [exact Bq|].
+    destruct Hq as [-> | ->]; destruct (Ascii.eqb c bs), (Ascii.eqb c sq), (Ascii.eqb c dq); cbn in E1 |- *; congruence.
+  - apply orb_false_iff in E1 as [E1a E1b].
+    destruct (Ascii.eqb c tab) eqn:E2; [apply Ascii.eqb_eq in E2; subst c; cbn [append]; apply rb_esc_t, Bq|].
+    destruct (Ascii.eqb c nl) eqn:E3; [apply Ascii.eqb_eq in E3; subst c; cbn [append]; apply rb_esc_n, Bq|].
+    destruct (Ascii.eqb c cr) eqn:E4; [apply Ascii.eqb_eq in E4; subst c; cbn [append]; apply rb_esc_r, Bq|].
+    destruct (is_printable c).
+    + cbn [append]. apply rb_plain; assumption.
+    + cbn [append]. destruct (hex_roundtrip c) as (H1 & H2 & H3). rewrite (rb_esc_x q _ _ _ _ tail Bq H1 H2), H3. reflexivity.
+Qed.
 
 Lemma read_body_repr q s rest : q = sq \/ q = dq -> read_body q (repr_body q s ++ String q rest) = Some (s, rest).
 Proof.
   intros Hq. induction s as [|c s IH]; cbn [repr_body append].
   - cbn [read_body]. rewrite Ascii.eqb_refl. reflexivity.
-  - rewrite sapp_assoc'. destruct Hq as [-> | ->]; [rewrite read_char_sq|rewrite read_char_dq]; rewrite IH; reflexivity.
+  - rewrite sapp_assoc', (read_char q c _ Hq), IH. reflexivity.
 Qed.
 
 Theorem read_repr s rest : read_str (py_repr_str s ++ rest) = Some (s, rest).
@@ -72,7 +105,7 @@ Proof.
       cbn [read_items]. rewrite E, N, <- E, read_item_repr.
       change (prefix_rest ", " (", " ++ join_sep ", " (map py_repr_name (y :: l)) ++ "]" ++ rest))
         with (Some (join_sep ", " (map py_repr_name (y :: l)) ++ "]" ++ rest)).
-      rewrite (IH fuel rest) by (cbn [length] in *; lia). reflexivity.
+      cbv beta iota. rewrite (IH fuel rest) by (cbn [length] in *; lia). reflexivity.
 Qed.
 
 Lemma length_join_ge l : length l <= String.length (join_sep ", " (map py_repr_name l) ++ "]").
@@ -94,7 +127,7 @@ Proof.
   apply read_items_repr.
   assert (A : forall a b, String.length (a ++ b) = String.length a + String.length b).
   { induction a as [|c a IH]; intros b; cbn; [reflexivity|rewrite IH; reflexivity]. }
-  pose proof (length_join_ge l) as G. rewrite A in G. cbn [String.length]. rewrite A. cbn [String.length append] in *. rewrite A. lia.
+  pose proof (length_join_ge l) as G. rewrite A in G. cbn [String.length] in G |- *. rewrite A. cbn [String.length]. lia.
 Qed.
 
 Theorem py_repr_names_injective l1 l2 : py_repr_names l1 = py_repr_names l2 -> l1 = l2.
@@ -102,3 +135,36 @@ Proof.
   intros H. pose proof (read_names_repr l1 "") as R1. pose proof (read_names_repr l2 "") as R2. rewrite H in R1. rewrite R1 in R2.
   inversion R2; reflexivity.
 Qed.
+
+(* ---------- the literals in the generated text ---------- *)
+Require Import PyBase Symbols ParseEq Classify BuildDefFacts.
+
+(* the four list literals of the class text read back as the four name lists of class_of, each followed by the next
+   literal segment of the template *)
+Theorem text_lists_read_back h c eqs :
+  exists t1 t2 t3 t4,
+    fill h c eqs = seg h 0 ++ t1 /\
+    read_names t1 = Some (c_endogenous c, seg h 1 ++ t2) /\
+    read_names t2 = Some (c_exogenous c, seg h 2 ++ t3) /\
+    read_names t3 = Some (c_parameters c, seg h 3 ++ t4) /\
+    read_names t4 = Some (c_errors c, seg h 4 ++ string_of_Z (c_lags c) ++ seg h 5 ++ string_of_Z (c_leads c) ++ seg h 6 ++ eqs ++ seg h 7).
+Proof.
+  unfold fill. eexists. eexists. eexists. eexists. split; [reflexivity|].
+  split; [apply read_names_repr|]. split; [apply read_names_repr|]. split; apply read_names_repr.
+Qed.
+
+(* what the literal segments are: the attribute each field is assigned to (untyped template; the typed one agrees modulo hints) *)
+Example untyped_segment_heads :
+  seg false 0 = "class Model(BaseModel):" ++ nl_s ++ "    ENDOGENOUS = " /\
+  seg false 1 = nl_s ++ "    EXOGENOUS = " /\
+  seg false 2 = nl_s ++ nl_s ++ "    PARAMETERS = " /\
+  seg false 3 = nl_s ++ "    ERRORS = " /\
+  seg false 4 = nl_s ++ nl_s ++ "    NAMES = ENDOGENOUS + EXOGENOUS + PARAMETERS + ERRORS" ++ nl_s ++ "    CHECK = ENDOGENOUS" ++ nl_s ++ nl_s ++ "    LAGS = " /\
+  seg false 5 = nl_s ++ "    LEADS = " /\
+  seg false 7 = "".
+Proof. repeat split; vm_compute; reflexivity. Qed.
+Example typed_segment_heads :
+  seg true 0 = "class Model(BaseModel):" ++ nl_s ++ "    ENDOGENOUS: List[str] = " /\
+  seg true 4 = nl_s ++ nl_s ++ "    NAMES: List[str] = ENDOGENOUS + EXOGENOUS + PARAMETERS + ERRORS" ++ nl_s ++ "    CHECK: List[str] = ENDOGENOUS" ++ nl_s ++ nl_s ++ "    LAGS: int = " /\
+  seg true 7 = "".
+Proof. repeat split; vm_compute; reflexivity. Qed.
